@@ -399,9 +399,10 @@ def exRemoteDelivery : List Act := [
   .arrive 0 true, .micro (.sock 1) 0 0, .micro (.sock 1) 5 0,
   .arrive 0 true, .micro (.sock 1) 0 0, .micro (.sock 1) 5 0]
 
-example : ((run State.init exRemoteDelivery).map fun s =>
-    (s.snaps.map (fun sn => (sn.taker, sn.p.c, sn.p.tid, sn.p.seq)), ((s.ctx 1).got 5).map (fun it => (it.p.c, it.p.tid, it.p.seq)))) =
-    some ([(.user 0 3, 0, 3, 0), (.user 0 3, 0, 3, 1), (.sock 1, 0, 3, 0), (.sock 1, 0, 3, 1)], [(0, 3, 0), (0, 3, 1)]) := by
-  decide +kernel
+example : ((run State.init exRemoteDelivery).map fun s => s.snaps.map (fun sn => (sn.taker, sn.p.c, sn.p.tid, sn.p.seq))) =
+    some [(.user 0 3, 0, 3, 0), (.user 0 3, 0, 3, 1), (.sock 1, 0, 3, 0), (.sock 1, 0, 3, 1)] := by decide +kernel
+
+example : ((run State.init exRemoteDelivery).map fun s => ((s.ctx 1).got 5).map (fun it => (it.p.c, it.p.tid, it.p.seq))) =
+    some [(0, 3, 0), (0, 3, 1)] := by decide +kernel
 
 end QmiModel.PubSub
